@@ -9,6 +9,7 @@ import Pypika.DDL
 import Pypika.Replace
 import Pypika.Names
 import Pypika.Builder
+import Pypika.DDLBuilder
 /-!
 # JSON → model values (driver side only; no theorem depends on this file)
 -/
@@ -351,6 +352,33 @@ def dCreate (j : Json) : D CreateD := do
          uniques := ← (← fArr j "uniques").mapM dStrs, primaryKey := ← jOpt dStrs (fld j "primary_key"),
          foreignKey := fk, onDelete := ← fOptStr j "on_delete", onUpdate := ← fOptStr j "on_update",
          asSelect := ← jOpt dQuery (fld j "as_select") }
+
+
+/-! DDL builder calls (`DDLBuilder.lean`) -/
+def dColArg (j : Json) : D DDLB.ColArg := do
+  match (← (fld j "k").getStr?) with
+  | "name" => pure (.name (← fStr j "n"))
+  | "pair" => pure (.pair (← fStr j "n") (← fStr j "t"))
+  | "col" => pure (.col (← dColumn (fld j "c")))
+  | s => throw s!"column argument {s}"
+
+def dCCall (j : Json) : D DDLB.CCall := do
+  match (← (fld j "m").getStr?) with
+  | "create_table" => pure (.createTable (← dTRef (fld j "t")))
+  | "temporary" => pure .temporary
+  | "unlogged" => pure .unlogged
+  | "with_system_versioning" => pure .withSystemVersioning
+  | "if_not_exists" => pure .ifNotExists
+  | "columns" => pure (.columns (← (← fArr j "cs").mapM dColArg))
+  | "period_for" => pure (.periodFor (← fStr j "name") (← fStr j "start") (← fStr j "stop"))
+  | "unique" => pure (.unique (← dStrs (fld j "cols")))
+  | "primary_key" => pure (.primaryKey (← dStrs (fld j "cols")))
+  | "foreign_key" => pure (.foreignKey (← dStrs (fld j "cols")) (← dTRef (fld j "ref")) (← dStrs (fld j "ref_cols"))
+                            (← fOptStr j "on_delete") (← fOptStr j "on_update"))
+  | "as_select" => pure (.asSelect (← jOpt dQuery (fld j "q")))
+  | "local" => pure .local
+  | "preserve_rows" => pure .preserveRows
+  | s => throw s!"create-builder call {s}"
 
 def dIndex (j : Json) : D IndexD := do
   pure { index := ← fStr j "index", table := ← fStr j "table", columns := ← dStrs (fld j "columns"), unique := ← fBool j "unique",
